@@ -51,8 +51,10 @@ EmitCase ==
 
 \* the branch decision around the two limits (the large-sample clause itself is
 \* evaluated by the harness, outside the model)
+\* ... and sizes well inside / well beyond them (two large tie-free samples inside the exact
+\* limit have more than 2^63 arrangements; the statement's samples go up to 70 values)
 BranchSizes == {TiesExactLimit - 1, TiesExactLimit, TiesExactLimit + 1,
-                ExactLimit - 1, ExactLimit, ExactLimit + 1}
+                ExactLimit - 1, ExactLimit, ExactLimit + 1} \cup {5, 14, 38, 44, 60, 70}
 ASSUME PrintT(ToJson([ tag |-> "branch",
   rows |-> SetToSeq({[n1 |-> a, n2 |-> b, ties |-> tt, exact |-> UseExact(a, b, tt)] :
                         <<a, b, tt>> \in BranchSizes \X BranchSizes \X BOOLEAN }) ]))
